@@ -62,15 +62,15 @@ end
 
 /-! ### The dependency graph (dead_code.rs:116-347) -/
 
-/-- `Scope::Symbol(name)` = `some name`, `Scope::Match(_)` = `none`. -/
+/-- State of the graph construction.  `Scope::Symbol(name)` = `some name`, `Scope::Match(_)` =
+    `none`.  The stack `currents` of the Rust code is not part of the state: it is passed down the
+    recursion (`cur`, innermost first; `true` = `BindType::Expr`, `false` = `BindType::Closure`),
+    which is what the balanced `push`/`pop` of `scope_idx` (dead_code.rs:144-155) amounts to. -/
 structure St where
   nodes : Array (Option String) := #[]
   edges : List (Nat × Nat) := []
   /-- `symbol_map: ScopedMap<Scope, NodeIndex>` (base/src/scoped_map.rs): innermost scope first -/
   frames : List (List (String × Nat)) := [[]]
-  /-- `currents`, innermost first; `true` = `BindType::Expr`, `false` = `BindType::Closure` -/
-  currents : List (Bool × Nat) := []
-  matchId : Nat := 0
 
 def frameLookup : List (List (String × Nat)) → String → Option Nat
   | [], _ => none
@@ -93,7 +93,18 @@ def addNode (st : St) (x : String) : St × Nat :=
 
 def addEdge (st : St) (a b : Nat) : St := { st with edges := (a, b) :: st.edges }
 
-def current (st : St) : Nat := match st.currents with | [] => 0 | c :: _ => c.2
+def addEdges (st : St) (es : List (Nat × Nat)) : St := { st with edges := es ++ st.edges }
+
+/-- `enter_scope` / `exit_scope` of the symbol map. -/
+def pushFrame (st : St) : St := { st with frames := [] :: st.frames }
+def popFrame (st : St) : St := { st with frames := st.frames.drop 1 }
+
+/-- `graph.add_node(Scope::Match(_))`: a node outside the symbol map. -/
+def pushNone (st : St) : St := { st with nodes := st.nodes.push none }
+
+def curNode : List (Bool × Nat) → Nat
+  | [] => 0
+  | c :: _ => c.2
 
 /-- dead_code.rs:268-275: edges parent→child along the stack of scopes, from the innermost
     outwards for as long as the child is an `Expr` binding. -/
@@ -117,9 +128,10 @@ def patBinders : Pat → List String
   | .ident x => [x]
   | .lit _ => []
 
-/-- dead_code.rs:166 `bind_pattern` -/
-def bindPattern (st : St) (p : Pat) (scrut : Nat) : St :=
-  (patBinders p).foldl (fun st x => let (st, i) := addNode st x; addEdge st i scrut) st
+/-- dead_code.rs:166 `bind_pattern`: a node per binder, with an edge binder → scrutinee. -/
+def bindNames (scrut : Nat) : List String → St → St
+  | [], st => st
+  | x :: xs, st => bindNames scrut xs (addEdge (addNode st x).1 (addNode st x).2 scrut)
 
 def altsHaveCtorOrLit : Alts → Bool
   | .nil => false
@@ -127,68 +139,53 @@ def altsHaveCtorOrLit : Alts → Bool
   | .cons (.lit _) _ _ => true
   | .cons _ _ rest => altsHaveCtorOrLit rest
 
-def bindAlts (st : St) (scrut : Nat) : Alts → St
-  | .nil => st
-  | .cons p _ rest => bindAlts (bindPattern st p scrut) scrut rest
+def bindAlts (scrut : Nat) : Alts → St → St
+  | .nil, st => st
+  | .cons p _ rest, st => bindAlts scrut rest (bindNames scrut (patBinders p) st)
 
 def closureNames : Closures → List String
   | .nil => []
   | .cons n _ _ rest => n :: closureNames rest
 
+def addNodes : List String → St → St
+  | [], st => st
+  | x :: xs, st => addNodes xs (addNode st x).1
+
 mutual
 /-- dead_code.rs:250 `DepGraph::visit_expr` -/
-def visit (rule : Expr → Bool) : Expr → St → St
-  | .const _, st => st
+def visit (rule : Expr → Bool) : Expr → List (Bool × Nat) → St → St
+  | .const _, _, st => st
   -- dead_code.rs:252-258
-  | .ident x, st =>
-    let cur := current st
-    let (st, i) := addNode st x
-    addEdge st cur i
+  | .ident x, cur, st => addEdge (addNode st x).1 (curNode cur) (addNode st x).2
   -- dead_code.rs:262-278, else the default arm 338 (walk_expr: callee then arguments)
-  | .call f args, st =>
-    let st := if rule f then (callEdges st.currents).foldl (fun st e => addEdge st e.1 e.2) st else st
-    visitList rule args (visit rule f st)
-  | .data _ _ args, st => visitList rule args st
+  | .call f args, cur, st =>
+    visitList rule args cur
+      (visit rule f cur (if rule f then addEdges st (callEdges cur) else st))
+  | .data _ _ args, cur, st => visitList rule args cur st
   -- dead_code.rs:280-308
-  | .letE x e body, st =>
-    let st := { st with frames := [] :: st.frames }
-    let (st, i) := addNode st x
-    let st := { st with currents := (true, i) :: st.currents }
-    let st := visit rule e st
-    let st := { st with currents := st.currents.drop 1 }
-    let st := visit rule body st
-    { st with frames := st.frames.drop 1 }
-  | .letRec cs body, st =>
-    let st := { st with frames := [] :: st.frames }
-    let st := (closureNames cs).foldl (fun st n => (addNode st n).1) st
-    let st := visitClosures rule cs st
-    let st := visit rule body st
-    { st with frames := st.frames.drop 1 }
+  | .letE x e body, cur, st =>
+    popFrame (visit rule body cur
+      (visit rule e ((true, (addNode (pushFrame st) x).2) :: cur) (addNode (pushFrame st) x).1))
+  | .letRec cs body, cur, st =>
+    popFrame (visit rule body cur
+      (visitClosures rule cs cur (addNodes (closureNames cs) (pushFrame st))))
   -- dead_code.rs:310-336
-  | .matchE s alts, st =>
+  | .matchE s alts, cur, st =>
     let scrut := st.nodes.size
-    let st := { st with nodes := st.nodes.push none, matchId := st.matchId + 1 }
-    let st := bindAlts st scrut alts
-    let st := { st with currents := (true, scrut) :: st.currents }
-    let st := visit rule s st
-    let st := { st with currents := st.currents.drop 1 }
-    let st := if altsHaveCtorOrLit alts then addEdge st (current st) scrut else st
-    visitAlts rule alts st
-  | .cast e, st => visit rule e st
-def visitList (rule : Expr → Bool) : Exprs → St → St
-  | .nil, st => st
-  | .cons e es, st => visitList rule es (visit rule e st)
-def visitAlts (rule : Expr → Bool) : Alts → St → St
-  | .nil, st => st
-  | .cons _ e rest, st => visitAlts rule rest (visit rule e st)
-def visitClosures (rule : Expr → Bool) : Closures → St → St
-  | .nil, st => st
-  | .cons n _ b rest, st =>
-    let (st, i) := addNode st n
-    let st := { st with currents := (false, i) :: st.currents }
-    let st := visit rule b st
-    let st := { st with currents := st.currents.drop 1 }
-    visitClosures rule rest st
+    let st1 := visit rule s ((true, scrut) :: cur) (bindAlts scrut alts (pushNone st))
+    visitAlts rule alts cur
+      (if altsHaveCtorOrLit alts then addEdge st1 (curNode cur) scrut else st1)
+  | .cast e, cur, st => visit rule e cur st
+def visitList (rule : Expr → Bool) : Exprs → List (Bool × Nat) → St → St
+  | .nil, _, st => st
+  | .cons e es, cur, st => visitList rule es cur (visit rule e cur st)
+def visitAlts (rule : Expr → Bool) : Alts → List (Bool × Nat) → St → St
+  | .nil, _, st => st
+  | .cons _ e rest, cur, st => visitAlts rule rest cur (visit rule e cur st)
+def visitClosures (rule : Expr → Bool) : Closures → List (Bool × Nat) → St → St
+  | .nil, _, st => st
+  | .cons n _ b rest, cur, st =>
+    visitClosures rule rest cur (visit rule b ((false, (addNode st n).2) :: cur) (addNode st n).1)
 end
 
 /-- One round of propagation along the edges; `changed` reports whether a node was added. -/
@@ -203,20 +200,27 @@ def reachLoop (edges : List (Nat × Nat)) : Nat → Array Bool → Array Bool
     let (m', ch) := reachStep edges m
     if ch then reachLoop edges n m' else m'
 
-/-- The set reachable from `<top>` is closed under the edges (checked on every case by the
-    driver; `reachLoop` runs at most one round per node). -/
+/-- The marked set is closed under the edges. -/
 def closedUnder (edges : List (Nat × Nat)) (marks : Array Bool) : Bool :=
-  edges.all fun e => !(marks.getD e.1 false) || marks.getD e.2 false
+  edges.all fun e => !(marks.getD e.1 true) || marks.getD e.2 true
 
 def topName : String := "<top>"
 
 /-- State after dead_code.rs:220-230. -/
 def graphOf (rule : Expr → Bool) (e : Expr) : St :=
-  let st : St := { nodes := #[some topName], frames := [[(topName, 0)]], currents := [(true, 0)] }
-  visit rule e st
+  visit rule e [(true, 0)] { nodes := #[some topName], edges := [], frames := [[(topName, 0)]] }
+
+/-- The nodes reachable from `<top>` (node 0): propagation to a fixpoint, one round per node at
+    most.  The result is *checked* to be closed and to contain `<top>`; should the bounded loop
+    ever stop early every node counts as reachable (sound, and the correspondence would show
+    it) — so closedness holds by construction. -/
+def reachRaw (st : St) : Array Bool :=
+  reachLoop st.edges (st.nodes.size + 1)
+    ((Array.replicate st.nodes.size false).setIfInBounds 0 true)
 
 def reachable (st : St) : Array Bool :=
-  reachLoop st.edges (st.nodes.size + 1) ((Array.replicate st.nodes.size false).setIfInBounds 0 true)
+  let m := reachRaw st
+  if closedUnder st.edges m && m.getD 0 true then m else Array.replicate st.nodes.size true
 
 /-- dead_code.rs:220 `DepGraph::used_bindings`: names of the `Symbol` scopes reachable from
     `<top>` (with `<top>` itself, as in the code). -/
@@ -224,7 +228,7 @@ def usedWith (rule : Expr → Bool) (e : Expr) : List String :=
   let st := graphOf rule e
   let marks := reachable st
   (List.range st.nodes.size).filterMap fun i =>
-    if marks.getD i false then (st.nodes.getD i none) else none
+    if marks.getD i true then (st.nodes.getD i none) else none
 
 def usedBindings (e : Expr) : List String := usedWith ruleNow e
 
@@ -384,6 +388,154 @@ def noRecList : Exprs → Bool
 def noRecAlts : Alts → Bool
   | .nil => true
   | .cons _ e rest => noRec e && noRecAlts rest
+end
+
+/-! ### Hypotheses of `usedBindings_kept`, as checkable predicates -/
+
+mutual
+/-- Names bound by `let`, by a recursive group, or by a pattern, anywhere in the expression. -/
+def allBinders : Expr → List String
+  | .const _ => []
+  | .ident _ => []
+  | .call f args => allBinders f ++ allBindersList args
+  | .data _ _ args => allBindersList args
+  | .letE x e body => x :: (allBinders e ++ allBinders body)
+  | .letRec cs body => closureNames cs ++ (allBindersClosures cs ++ allBinders body)
+  | .matchE s alts => allBinders s ++ allBindersAlts alts
+  | .cast e => allBinders e
+def allBindersList : Exprs → List String
+  | .nil => []
+  | .cons e es => allBinders e ++ allBindersList es
+def allBindersAlts : Alts → List String
+  | .nil => []
+  | .cons p e rest => patBinders p ++ (allBinders e ++ allBindersAlts rest)
+def allBindersClosures : Closures → List String
+  | .nil => []
+  | .cons _ _ b rest => allBinders b ++ allBindersClosures rest
+end
+
+/-- The body of a field projection `match s with { f = b } -> b`. -/
+def projBody (fields : List (String × String)) : Expr → Bool
+  | .ident b => fields.any fun f => f.2 == b
+  | _ => false
+
+def singleRecordOK (scrutPure : Bool) : Alts → Bool
+  | .cons (.record fields) b .nil => scrutPure || projBody fields b
+  | _ => false
+
+mutual
+/-- What the translation to core IR guarantees about matches (vm/src/core/mod.rs:1966-1995
+    `translate_top` binds a non-identifier scrutinee to `match_pattern` first; a projection is a
+    single record alternative returning its field): every match has a constructor or literal
+    alternative, or is a single record alternative whose scrutinee makes no call or whose body is
+    one of its binders. -/
+def shapeOK : Expr → Bool
+  | .const _ => true
+  | .ident _ => true
+  | .call f args => shapeOK f && shapeOKList args
+  | .data _ _ args => shapeOKList args
+  | .letE _ e body => shapeOK e && shapeOK body
+  | .letRec cs body => shapeOKClosures cs && shapeOK body
+  | .matchE s alts =>
+    (altsHaveCtorOrLit alts || singleRecordOK (pureE s) alts) && (shapeOK s && shapeOKAlts alts)
+  | .cast e => shapeOK e
+def shapeOKList : Exprs → Bool
+  | .nil => true
+  | .cons e es => shapeOK e && shapeOKList es
+def shapeOKAlts : Alts → Bool
+  | .nil => true
+  | .cons _ e rest => shapeOK e && shapeOKAlts rest
+def shapeOKClosures : Closures → Bool
+  | .nil => true
+  | .cons _ _ b rest => shapeOK b && shapeOKClosures rest
+end
+
+/-- Indices of the graph nodes carrying symbol `x`. -/
+def nodesNamed (st : St) (x : String) : List Nat :=
+  (List.range st.nodes.size).filter fun i => st.nodes.getD i none == some x
+
+/-- Symbols are unique (check/src/rename.rs) and referenced only inside their scope: no bound
+    symbol has two nodes in the dependency graph. -/
+def bindersUnique (e : Expr) : Bool :=
+  (allBinders e).all fun x => (nodesNamed (graphOf ruleNow e) x).length ≤ 1
+
+/-- Weaker than uniqueness (the pattern-match compiler duplicates sub-trees, so a symbol can be
+    bound at several places and get several nodes): all graph nodes of one bound symbol are
+    reachable together. -/
+def bindersCoherent (e : Expr) : Bool :=
+  let st := graphOf ruleNow e
+  let m := reachable st
+  (allBinders e).all fun x =>
+    (nodesNamed st x).all (fun i => m.getD i true) || (nodesNamed st x).all (fun i => !(m.getD i true))
+
+/-! ### Hypotheses of `unnecessaryAlloc_correct_partial` -/
+
+def isDummy (x : String) : Bool := ("dummy%".toList).isPrefixOf x.toList
+
+mutual
+/-- Every identifier occurrence in the expression satisfies `P`. -/
+def idsIn (P : String → Bool) : Expr → Bool
+  | .const _ => true
+  | .ident x => P x
+  | .call f args => idsIn P f && idsInList P args
+  | .data _ _ args => idsInList P args
+  | .letE _ e body => idsIn P e && idsIn P body
+  | .letRec cs body => idsInClosures P cs && idsIn P body
+  | .matchE s alts => idsIn P s && idsInAlts P alts
+  | .cast e => idsIn P e
+def idsInList (P : String → Bool) : Exprs → Bool
+  | .nil => true
+  | .cons e es => idsIn P e && idsInList P es
+def idsInAlts (P : String → Bool) : Alts → Bool
+  | .nil => true
+  | .cons _ e rest => idsIn P e && idsInAlts P rest
+def idsInClosures (P : String → Bool) : Closures → Bool
+  | .nil => true
+  | .cons _ _ b rest => idsIn P b && idsInClosures P rest
+end
+
+def lengthE : Exprs → Nat
+  | .nil => 0
+  | .cons _ es => lengthE es + 1
+
+def nodupB : List String → Bool
+  | [] => true
+  | x :: xs => !(xs.contains x) && nodupB xs
+
+/-- A rewritten node `match { r₁ = a₁, … } with { f = b } -> body` as the translation produces
+    it for a projection out of a record literal: one pattern field, present in the record type,
+    whose binder is fresh (check/src/rename.rs) for the field expressions; no symbol of the
+    program looks like the optimiser's `dummy`. -/
+def targetOK (rows : List String) (args : Exprs) (fields : List (String × String)) (body : Expr) :
+    Bool :=
+  match fields with
+  | [(f, b)] =>
+    (findIdx rows f).isSome && nodupB rows && rows.length == lengthE args && !isDummy b &&
+      idsInList (fun x => x != b && !isDummy x) args && idsIn (fun x => !isDummy x) body
+  | _ => false
+
+mutual
+def uaOK : Expr → Bool
+  | .const _ => true
+  | .ident _ => true
+  | .call f args => uaOK f && uaOKList args
+  | .data _ _ args => uaOKList args
+  | .letE _ e body => uaOK e && uaOK body
+  | .letRec cs body => uaOKClosures cs && uaOK body
+  | .matchE s alts =>
+    match uaTarget s alts with
+    | some (rows, args, fields, body) => targetOK rows args fields body
+    | none => uaOK s && uaOKAlts alts
+  | .cast e => uaOK e
+def uaOKList : Exprs → Bool
+  | .nil => true
+  | .cons e es => uaOK e && uaOKList es
+def uaOKAlts : Alts → Bool
+  | .nil => true
+  | .cons _ e rest => uaOK e && uaOKAlts rest
+def uaOKClosures : Closures → Bool
+  | .nil => true
+  | .cons _ _ b rest => uaOK b && uaOKClosures rest
 end
 
 end GluonModel.Dce
